@@ -611,7 +611,13 @@ fn gen_main(args: &[String]) -> i32 {
     let mut attempts = 0;
     while produced < n && attempts < n * 20 {
         attempts += 1;
-        let src = plangen::program(&mut rng, size as usize);
+        // two dedicated shapes are mixed into the stream: definitions after `return`/`comot`/`next` that are
+        // called through hoisting, and bodies with 33–140 locals (liveness bit sets wider than one word)
+        let src = match attempts % 16 {
+            5 => plangen::hoisted_after_dead(&mut rng),
+            11 => plangen::many_locals(&mut rng),
+            _ => plangen::program(&mut rng, size as usize),
+        };
         let s2 = src.clone();
         if let Ok(Some(r)) = util::catch(move || request_for(&s2)) {
             out.line(&r);
